@@ -352,7 +352,7 @@ class Translator:
         t = TypeOf(v); ct = self.ctype(t)
         A = lambda i: self.val(ops[i])
         if op == 'mul' and getattr(self, 'hook_arith', False) and not is_const and GetIntTypeWidth(t) in (32, 64) \
-                and GetValueKind(ops[0]) != VK['ConstantInt'] and GetValueKind(ops[1]) != VK['ConstantInt']:
+                and (self.hook_arith == 'all' or (GetValueKind(ops[0]) != VK['ConstantInt'] and GetValueKind(ops[1]) != VK['ConstantInt'])):
             return '__verif_mul%d(%s, %s)' % (GetIntTypeWidth(t), A(0), A(1))
         if op in ('udiv', 'urem') and getattr(self, 'hook_arith', False) and not is_const and GetIntTypeWidth(t) in (32, 64) \
                 and GetValueKind(ops[1]) != VK['ConstantInt']:
@@ -770,7 +770,7 @@ if __name__ == '__main__':
     ap.add_argument('ll'); ap.add_argument('outbase')
     ap.add_argument('--inert', default='')
     ap.add_argument('--lifetime-heap', action='store_true')
-    ap.add_argument('--hook-arith', action='store_true', help='route non-constant 32/64-bit mul/udiv/urem through the memoising rt functions')
+    ap.add_argument('--hook-arith', nargs='?', const='nonconst', default='', help='route non-constant 32/64-bit mul/udiv/urem through the memoising rt functions')
     a = ap.parse_args()
     tr = Translator(a.ll)
     tr.lifetime_heap = a.lifetime_heap
